@@ -8,6 +8,7 @@ package dicescript
 // compiled natively and fed a solver model (VERIF_REPLAY_* environment).
 
 import (
+	"sync"
 	"fmt"
 	"regexp"
 	"strconv"
@@ -49,6 +50,8 @@ var vR struct {
 	srcs    map[*rand.PCGSource]int
 }
 
+var vDrawMu sync.Mutex
+
 func vReset(f *vReplayFile) {
 	vR.file = f
 	vR.nondet, vR.draws = nil, nil
@@ -64,6 +67,10 @@ func vReset(f *vReplayFile) {
 		}
 	}
 	rand.VerifDrawHook = func(src *rand.PCGSource) (uint64, bool) {
+		// (the two goroutines of vConcurrently both roll: the replay runtime's
+		// own bookkeeping must not race)
+		vDrawMu.Lock()
+		defer vDrawMu.Unlock()
 		vR.nDraws++
 		vR.srcs[src]++
 		if vR.di < len(vR.draws) {
